@@ -1423,6 +1423,298 @@ func rulePR6(c *Ctx) *rule {
 	return r
 }
 
+// ---- KW1: the task keyword is recognised as a whole word ------------------------------------------------------------------------
+
+func ruleKW1(c *Ctx) *rule {
+	r := &rule{ID: "KW1", Engine: "E4+E2", Floor: 1,
+		Statement: "wherever a lexer state hands over to the state that emits the task keyword because the rest of the input starts with the keyword's spelling, the hand-over also has the necessary guard that the character after the keyword is not an identifier character (isValidIdent / unicode.IsLetter false)",
+		Necessity: "identifiers are made of the same characters as the keyword: without the boundary test `tasks := \"x\"` is read as the keyword followed by `s` and rejected, and a variable whose name starts with task that the formatter moves to the start of a line turns a working spokfile into one that no longer parses"}
+	states, _, _ := c.lexStates()
+	taskK := tokenConst(c, "TASK")
+	var kwState *ssa.Function
+	for f, st := range states {
+		if st.emits[taskK] {
+			kwState = f
+		}
+	}
+	if kwState == nil {
+		lost("no lexer state emits token.TASK")
+	}
+	isKeywordPrefixTest := func(cond ssa.Value) bool {
+		for _, o := range append([]ssa.Value{cond}, origins(cond)...) {
+			var call *ssa.Call
+			switch x := o.(type) {
+			case *ssa.Call:
+				call = x
+			case *ssa.Extract:
+				call, _ = x.Tuple.(*ssa.Call)
+			}
+			if call == nil {
+				continue
+			}
+			n := calleeName(call.Common())
+			if n != "strings.HasPrefix" && n != "strings.CutPrefix" {
+				continue
+			}
+			args := call.Common().Args
+			if len(args) != 2 {
+				continue
+			}
+			for _, po := range append([]ssa.Value{args[1]}, origins(args[1])...) {
+				if sc, ok := po.(*ssa.Call); ok && strings.HasSuffix(calleeName(sc.Common()), "token.Type).String") && len(sc.Common().Args) == 1 {
+					if k, isC := constInt(sc.Common().Args[0]); isC && k == taskK {
+						return true
+					}
+				}
+				if sv, ok := constString(po); ok && sv == "task" {
+					return true
+				}
+			}
+		}
+		return false
+	}
+	isIdentCharTest := func(cond ssa.Value) bool {
+		call, ok := cond.(*ssa.Call)
+		if !ok {
+			return false
+		}
+		switch n := calleeName(call.Common()); {
+		case n == "unicode.IsLetter":
+			return true
+		case strings.HasSuffix(n, "lexer.isValidIdent"):
+			return true
+		}
+		return false
+	}
+	n := 0
+	for f := range states {
+		fi := c.info(f)
+		for _, ret := range returnsOf(f) {
+			hands := false
+			for _, o := range origins(ret.Results[0]) {
+				if fn, ok := o.(*ssa.Function); ok && fn == kwState {
+					hands = true
+				}
+				if ct, ok := o.(*ssa.ChangeType); ok {
+					if fn, ok := ct.X.(*ssa.Function); ok && fn == kwState {
+						hands = true
+					}
+				}
+			}
+			if !hands {
+				continue
+			}
+			gs := fi.expandGuards(fi.necessaryGuards(ret.Block()))
+			prefix, boundary := false, false
+			for _, g := range gs {
+				if g.pol && isKeywordPrefixTest(g.cond) {
+					prefix = true
+				}
+				if !g.pol && isIdentCharTest(g.cond) {
+					boundary = true
+				}
+			}
+			if !prefix {
+				continue // reached some other way (a keyword table, a switch on a scanned word): not this rule's shape
+			}
+			n++
+			key := fmt.Sprintf("%s -> %s keyword boundary#%d", fname(f), fname(kwState), n)
+			if boundary {
+				r.ok(key, c.ipos(ret), "the keyword must be followed by something that is not an identifier character")
+			} else {
+				r.bad(key, c.ipos(ret), "the keyword is recognised by its prefix alone: an identifier that merely starts with it (tasks, task_dir, taskfile) is cut in two")
+			}
+		}
+	}
+	if n == 0 {
+		r.undecided("lexer keyword recognition", "-", "no state hands over to the keyword state on a prefix test of the keyword's spelling: the keyword is recognised in a way this rule does not model")
+	}
+	return r
+}
+
+// ---- WR1: the printers of compound nodes write every field and every list element ---------------------------------------------------
+
+func ruleWR1(c *Ctx) *rule {
+	r := &rule{ID: "WR1", Engine: "E2+E3", Floor: 6,
+		Statement: "the String method of every compound node type (Task, Function, Assign) reads every field of the node into the text it returns; every list field is consumed by a loop that indexes it with its own induction variable from front to back, and on every way round that loop the element at hand is handed to a call (its String/Write, an append of it): no element is filtered out, and the list is not sorted or re-sliced",
+		Necessity: "a dependency, output, command or argument that the printer leaves out (a de-duplication, a skip of empty entries, a cap) is gone from the file --fmt writes back: the formatted spokfile defines a different task"}
+	for _, tn := range []string{"Task", "Function", "Assign"} {
+		f := c.methodOpt("ast", tn, "String")
+		if f == nil {
+			r.bad("ast."+tn+".String", "?", "no String method")
+			continue
+		}
+		obj := c.pkg("ast").Pkg.Scope().Lookup(tn)
+		if obj == nil {
+			lost("type ast.%s", tn)
+		}
+		st, ok := obj.Type().Underlying().(*types.Struct)
+		if !ok {
+			lost("ast.%s is not a struct", tn)
+		}
+		fi := c.info(f)
+		// what the returned text is computed from
+		rs := c.newSlicer()
+		rs.depth = 1
+		var rets []ssa.Value
+		for _, ret := range returnsOf(f) {
+			rets = append(rets, ret.Results[0])
+		}
+		// text written into a builder that is then returned counts as returned text
+		for _, site := range callSites(f) {
+			n := calleeName(site.Common())
+			if strings.HasSuffix(n, ").WriteString") || strings.HasSuffix(n, ").WriteByte") || strings.HasSuffix(n, ").WriteRune") || strings.HasSuffix(n, ").Write") || strings.HasPrefix(n, "fmt.Fprint") {
+				rets = append(rets, site.Common().Args...)
+			}
+		}
+		rres := rs.run(rets...)
+		for i := 0; i < st.NumFields(); i++ {
+			fld := st.Field(i)
+			if fld.Embedded() {
+				continue
+			}
+			fk := "ast." + tn + "." + fld.Name()
+			key := "ast." + tn + ".String prints " + fld.Name()
+			// the values that are this field of the receiver
+			var vals []ssa.Value
+			for _, b := range f.Blocks {
+				for _, in := range b.Instrs {
+					if v, isV := in.(ssa.Value); isV {
+						if _, isAddr := v.(*ssa.FieldAddr); isAddr {
+							continue
+						}
+						if fieldKey(v) == fk || isFieldLoad(v, fk) {
+							vals = append(vals, v)
+						}
+					}
+				}
+			}
+			if len(vals) == 0 || !rres.hasField(fk) {
+				r.bad(key, c.pos(f.Pos()), "the field never reaches the returned text")
+				continue
+			}
+			if _, isSlice := fld.Type().Underlying().(*types.Slice); !isSlice {
+				r.ok(key, c.pos(f.Pos()), "read into the returned text")
+				continue
+			}
+			isVal := map[ssa.Value]bool{}
+			for _, v := range vals {
+				isVal[v] = true
+			}
+			// loops that index the field with their induction variable
+			verdict, detail := "none", ""
+			for _, l := range fi.loops {
+				var elems []ssa.Value
+				for _, b := range f.Blocks {
+					if !l.body[b] {
+						continue
+					}
+					for _, in := range b.Instrs {
+						var x, idx ssa.Value
+						switch ia := in.(type) {
+						case *ssa.IndexAddr:
+							x, idx = ia.X, ia.Index
+						case *ssa.Index:
+							x, idx = ia.X, ia.Index
+						}
+						if x == nil || !isVal[x] {
+							continue
+						}
+						if p, isPhi := idx.(*ssa.Phi); isPhi && p.Block() == l.header && l.isInduction(p) {
+							elems = append(elems, in.(ssa.Value))
+						} else if bo, isBin := idx.(*ssa.BinOp); isBin {
+							if p, isPhi := bo.X.(*ssa.Phi); isPhi && p.Block() == l.header && l.isInduction(p) {
+								elems = append(elems, in.(ssa.Value))
+							}
+						}
+					}
+				}
+				if len(elems) == 0 {
+					continue
+				}
+				// a call that takes the element, on every way round
+				var uses []*ssa.BasicBlock
+				for _, b := range f.Blocks {
+					if !l.body[b] || fi.innermostLoop(b) != l {
+						continue
+					}
+					for _, in := range b.Instrs {
+						site, isCall := in.(ssa.CallInstruction)
+						if !isCall {
+							continue
+						}
+						// only what puts the element into the text (or into the list the text is joined from) counts
+						cn := calleeName(site.Common())
+						if !(cn == "builtin.append" || strings.HasSuffix(cn, ").WriteString") || strings.HasSuffix(cn, ").Write") || strings.HasPrefix(cn, "fmt.Fprint") || strings.HasSuffix(cn, ").WriteByte") || strings.HasSuffix(cn, ").WriteRune")) {
+							continue
+						}
+						us := c.newSlicer()
+						us.depth = 0
+						var ops []ssa.Value
+						if site.Common().IsInvoke() {
+							ops = append(ops, site.Common().Value)
+						}
+						ops = append(ops, site.Common().Args...)
+						ures := us.run(ops...)
+						for _, e := range elems {
+							if ures.has(e) {
+								uses = append(uses, b)
+							}
+						}
+					}
+				}
+				every := false
+				for _, ub := range uses {
+					avoidable := false
+					seenB := map[*ssa.BasicBlock]bool{}
+					var walk func(x *ssa.BasicBlock)
+					walk = func(x *ssa.BasicBlock) {
+						if x == ub || seenB[x] || !l.body[x] {
+							return
+						}
+						seenB[x] = true
+						for _, sx := range x.Succs {
+							if sx == l.header || !l.body[sx] {
+								avoidable = true
+								continue
+							}
+							walk(sx)
+						}
+					}
+					for _, sx := range l.header.Succs {
+						if l.body[sx] {
+							walk(sx)
+						}
+					}
+					if !avoidable {
+						every = true
+					}
+				}
+				if every {
+					verdict = "ok"
+				} else if verdict != "ok" {
+					verdict, detail = "filtered", "the loop at "+c.bpos(l.header)+" can go round without handing the element at hand to anything: entries are left out under a condition"
+				}
+			}
+			// nothing re-orders the list or a copy of it
+			for _, v := range vals {
+				if why := c.sliceMutation(v, 1, map[ssa.Value]bool{}, "the "+fld.Name()+" of the node"); why != "" {
+					verdict, detail = "filtered", why
+				}
+			}
+			switch verdict {
+			case "ok":
+				r.ok(key, c.pos(f.Pos()), "every element is consumed on every way round a front-to-back loop over the field")
+			case "filtered":
+				r.bad(key, c.pos(f.Pos()), detail)
+			default:
+				r.undecided(key, c.pos(f.Pos()), "the list is not consumed by a loop that indexes it with its own induction variable (a library call, an iterator): not followed")
+			}
+		}
+	}
+	return r
+}
+
 func rulePR5(c *Ctx) *rule {
 	r := &rule{ID: "PR5", Engine: "E3", Floor: 1,
 		Statement: "in the lexer, parser, ast and token packages every bufio.Scanner has its Err() consulted (or no scanner is used at all: the pinned tree splits the input with strings functions)",
@@ -1590,6 +1882,16 @@ func parseProperties() []*propertySpec {
 			NotCovered:  []string{"totality and absence of panics (index arithmetic in getLine, rune decoding) over all byte strings", "that each lexer state consumes input (cursor arithmetic)", "that cited line numbers are within 1..lines"},
 			Assumptions: []string{"a receive from the closed token channel yields the zero token, whose type is token.EOF"},
 			Rules:       []func(*Ctx) *rule{rulePR1, rulePR2, rulePR3, rulePR4, rulePR5, rulePR6, ruleLX1, ruleLX2, ruleFM6}},
+		{ID: "C06", Title: "Parsing recovers exactly the structure written, in every admissible layout",
+			Explanation: "Only the clauses of parse fidelity that are visible in the shape of the code are decided: KW1 (state graph + edge dominance) proves the task keyword is recognised as a whole word, so that names beginning with it stay names; PS1/PS2 prove a string literal's text is the token text minus the quotes and that Literal() hands the field out unchanged ('the same strings verbatim'); TL1/TL2 prove a token's text is the input between the cursor cells; PR4/FM6 prove lexer and parser work on the file as read; FM3/FM5 prove one tree node per statement and that no parsed comment is dropped; TK4 proves one command per command token. Equality between the written structure and the parse result for all layouts is NOT decided.",
+			NotCovered:  []string{"the lexer's cursor arithmetic for every layout (whitespace, CRLF line ends - commands keep a trailing \\r on CRLF input today, observed by a sub-agent, value-level), trailing commas, one-line bodies, non-ASCII letters", "that the parser puts each element into the right list"},
+			Assumptions: []string{"identifiers are letters and underscores (lexer.isValidIdent)"},
+			Rules:       []func(*Ctx) *rule{ruleKW1, rulePS1, rulePS2, ruleTL1, ruleTL2, rulePR4, ruleFM6, ruleFM3, ruleFM5, ruleTK4}},
+		{ID: "C07", Title: "Formatting never changes what a spokfile does, and its output always parses",
+			Explanation: "Only the structural necessary conditions of the round trip are decided: KW1 proves the keyword is a whole word (a name starting with 'task' that the printer moves to the start of a line must still be a name); WR1 proves every printer of a compound node writes every field, and every element of every list field by a full forward range (or by the indices a length test pins down), unconditionally and unsorted; FM1 proves no top-level node prints as nothing and Tree.Write prints each node once in order; FM7 proves nobody outside parser/ast overwrites the tree (or the lists inside its nodes) between Parse and String; FX2 proves --fmt writes exactly Tree.String() of the parse result and only when parsing and loading succeeded; PS1/PS2 prove string text is token text minus quotes and Literal() returns the field; ST9 proves no spokfile text is used as a format string. That the printed text re-parses to an equal tree for every input is NOT decided.",
+			NotCovered:  []string{"re-lexing of the printed form for every input (quotes inside strings, trailing blanks of commands, CRLF): value-level", "equality of the re-parsed tree"},
+			Assumptions: []string{"the printed punctuation is what the existing ast tests pin"},
+			Rules:       []func(*Ctx) *rule{ruleKW1, ruleWR1, ruleFM1, ruleFM7, ruleFX2, rulePS1, rulePS2, ruleFM6, ruleST9}},
 		{ID: "C15", Title: "Formatting keeps every comment and every task's docstring",
 			Explanation: "FM1 proves by a may-be-empty analysis over the SSA form of every String() method of the node types the parser appends (Comment, Assign, Task) that no return path prints the empty string, and that Tree.Write prints every node once, in order; FM2 proves by edge dominance that a parsed comment becomes a docstring only under the guard that the very next token is the task keyword, is never carried over from another iteration, and that Task.String prints it before the keyword; FM3 proves by path enumeration that every way round the parse loop appends exactly one node.",
 			NotCovered:  []string{"preservation of the comment text itself and of order (value-level)", "comments inside task bodies (the lexer rejects them)"},
